@@ -394,6 +394,9 @@ func runC14(c *runCtx) {
 	if r.tty.Overflow > 0 {
 		c.count("probe.write_past_right_margin", 1)
 	}
+	if r.tty.Malformed > 0 {
+		c.count("probe.ill_formed_control_sequence_written", 1)
+	}
 	c.state = fmt.Sprintf("code=%d ev=%d out=%d", r.code, len(plan.Events), r.tty.BytesOut)
 }
 
